@@ -213,8 +213,13 @@ func TestC18QuarProbe(t *testing.T) {
 // and returns, per module, the differing entries ("-" only on a, "+" only on b).
 func c18StoreDiffs(a, b *c18Net) map[string][]string {
 	out := map[string][]string{}
-	for _, m := range c18Modules {
-		sa, sb := c18StoreScope(m, a.rawStore(m)), c18StoreScope(m, b.rawStore(m))
+	for _, m := range append(append([]string{}, c18Modules...), c18MarkerAccounts) {
+		var sa, sb []string
+		if m == c18MarkerAccounts {
+			sa, sb = a.rawMarkerAccounts(), b.rawMarkerAccounts()
+		} else {
+			sa, sb = c18StoreScope(m, a.rawStore(m)), c18StoreScope(m, b.rawStore(m))
+		}
 		inA, inB := map[string]bool{}, map[string]bool{}
 		for _, x := range sa {
 			inA[x] = true
@@ -272,36 +277,8 @@ func c18StoreScope(module string, entries []string) []string {
 // returns the same string).
 const c18QuarFingerprint = "C18: quarantine export drops accepted_from_addresses"
 
-// c18QuarShapeOn: the multi-sender scenario is a genuine violation on the unchanged tree.  It is
-// part of the check as soon as the coordinator has listed it in known_findings.json (any status:
-// once the defect is repaired the scenario keeps running and must pass), or when
-// VERIF_C18_QUAR_MULTI=1 asks for it; VERIF_C18_QUAR_MULTI=0 switches it off.
-func c18QuarShapeOn() bool {
-	switch os.Getenv("VERIF_C18_QUAR_MULTI") {
-	case "1":
-		return true
-	case "0":
-		return false
-	}
-	for _, p := range []string{os.Getenv("VERIF_KNOWN_FINDINGS"), "../known_findings.json", "known_findings.json", "/verif/known_findings.json"} {
-		if p == "" {
-			continue
-		}
-		bz, err := os.ReadFile(p)
-		if err != nil {
-			continue
-		}
-		return strings.Contains(string(bz), c18QuarFingerprint) || strings.Contains(string(bz), "accepted_from_addresses")
-	}
-	return false
-}
-
 // c18QuarantineCase emits the scenario as one case.
 func c18QuarantineCase(t *testing.T, w *CaseWriter) {
-	if !c18QuarShapeOn() {
-		w.Count("quarantine_multi_sender_scenario_off")
-		return
-	}
 	o, err := c18QuarantineMulti(t)
 	desc := map[string]any{"kind": "scenario", "scenario": "quarantine_multi_sender", "label": "quarantine-multi-sender",
 		"driven": o.ok, "genesis_has_multi_sender_record": o.GenesisHasMulti, "partially_accepted_record_reached": o.PartialAccepted,
